@@ -92,7 +92,8 @@ def crafted_asset(rng, kind, ne, nh):
         intras = [_intra(T(1), e0, h0, e1, h1, amt, amt, None, 14), _intra(T(2), e0, h0, e1, h1, amt, amt - 1000, price, 15)]
         outs = [_out(T(3), e1, h1, amt // 2, 100, price * 2, 9)] if (e0, h0) != (e1, h1) else []
     elif kind == "dust_fee_zero_balance":
-        # finding F8: the transfer fee is not taxed (fiat value < 5e-14), the lot keeps it, the balances lose it
+        # a transfer fee worth < 5e-14, then everything that arrived is sold: the fee must be taken from the lot, which is then
+        # exhausted, and the asset is not listed (before the repair of finding F8 the lot kept the fee, no account held it: KeyError)
         ins = [_in(T(0), e0, h0, amt, price, 3)]
         intras = [_intra(T(1), e0, h0, e1, h1, amt, amt - 1, 1000, 14)]
         outs = [_out(T(2), e1, h1, amt - 1, 0, price, 9)]
@@ -117,7 +118,7 @@ def gen_case(rng, k):
         used = {c["asset"] for c in m["assets"]}
         free = [n for n in l5.ASSET_NAMES + ["Q7", "M0"] if n not in used]
         for _ in range(rng.range(1, 2)):
-            # F8 / below-resolution situations are known findings: keep them rare so that the other judgements dominate
+            # dust-fee / below-resolution shapes: rarer than the others so that the other judgements dominate
             kind = rng.choice(CRAFT_KINDS[:5] * 4 + CRAFT_KINDS[5:])
             c = crafted_asset(rng, kind, ne, nh)
             c["asset"] = free.pop(0)
@@ -196,7 +197,9 @@ def asset_facts(case, dump, to_day):
 
 
 def dust_fee_units(case, to_day):
-    evs = [e for e in hist.taxable_oracle(case) if e["cls"] == 2 and not hist.intra_fee_taxed(e)
+    """informational (tag dust-transfer-fee-no-balance, the shape of the repaired finding F8): total of the transfer fees whose
+    fiat value rounds to 0 at 13 decimals"""
+    evs = [e for e in hist.taxable_oracle(case) if e["cls"] == 2 and hist.is_dust_fee(e)
            and (to_day is None or hist.local_day(e["ts"]) <= to_day)]
     return sum(e["amt"] for e in evs)
 
@@ -300,9 +303,6 @@ def judge(multi, res, names):
             rep = per_asset_cost.get(a, Fraction(0))
             diff = abs(f["realised"] + rep - f["acquired"])
             bound = TWO52 * f["unreal"] + 2 * f["d"]
-            if a not in listed and f["pos"] == [] and f["unreal"] > f["below"]:
-                # lots keep an amount that no account holds (dust transfer fee, F8): nothing the report could show
-                continue
             if diff > bound:
                 out.append((f"{label}: asset {a}: realized cost basis of the detail {float(f['realised'])!r} + unrealized cost basis of the report "
                             f"{float(rep)!r} != total cost of everything acquired {float(f['acquired'])!r} (difference {float(diff)!r})", {"conservation"}))
@@ -339,7 +339,7 @@ def run_batch(cases, out, stats, side=False):
             facts = {c["asset"]: asset_facts(c, r["computed"][c["asset"]], m.get("to")) for c in m["assets"]}
             orphan = [a for a, f in facts.items() if not f["pos"] and f["unreal"] > f["below"]]
             if r["err"] == "KeyError" and orphan and all(dust[a] > 0 and facts[a]["rem_total"] == dust[a] for a in orphan):
-                tags.add("dust-transfer-fee-no-balance")
+                tags.add("dust-transfer-fee-no-balance")      # informational only: no known: line matches it any more
             if not side:
                 out.violation(f"no report: the generator raised {r['err']}: {r.get('msg')} "
                               f"(assets whose lots keep an amount that no account holds: {orphan})", rep, tags=tags | {"crash"})
@@ -481,6 +481,7 @@ def run(tier, build, replay=None):
         "to-date cuts assume local dates monotone in time (finding F9); cases with a to-date are generated with one UTC offset per asset",
         "numeric criterion: cell = correctly rounded double of a value within N*1e-28 x (cost of the asset's lots) of the exact rational "
         "(N = 4*(lots+fractions)+16); sums of cells within 2^-52 relative; lots whose unsold cost is below 5e-14 may be dropped",
-        "reconciliation with balances assumes no dust transfer fee (finding F8): with one, lots keep an amount no account holds",
+        "nothing is assumed about small transfer fees: finding F8 is repaired (replay corpus/C15/f8-dust-fee-no-balance.json runs first), "
+        "an asset whose lots keep an amount that no account holds is a violation",
     ]
     return out.finish(proofs, build)
